@@ -11,6 +11,11 @@ C08.d  [cmp] the leaf status mapping is failure first, then success, else none; 
        NONE < SUCCESS < FAILURE; deepUpdatePlans calls updatePlan with that status.
 C08.e  [effect] S_::deepExit clears both status bits of its own id after the user code.
 C08.f  [sib] payload and void specialisations of updatePlan agree after erasing the payload branch.
+C08.g  the plan-exists gate: set by append only, cleared by the full reset only (shares C09.b).
+C08.h  [summary] succeed(id)/fail(id) set exactly the bit of id and the cycle result; the parameterless forms report for the caller.
+C08.i  the per-cycle status is reset on every path after the plan step (shares C09.e).
+C08.j  [summary] order across plan edits: linkTask appends at the tail, PlanT::remove unlinks exactly the given task, the plan
+       iterators step to the successor cached before a removal (shares the per-operation summaries C10.b/d/e).
 """
 import itertools
 import re
@@ -354,6 +359,13 @@ def run(run):
             run.guard('exit clears', exit_clears, run, F, E)
             run.guard('sibling rule', sibling_rule, run, F, E)
             run.guard('status reports', status_reports, run, F, E)
+            # "tasks that do not fire stay in the plan in their original order", also across plan edits: appending links at the tail,
+            # removing unlinks exactly the given task, the iterators step to the cached successor (the per-operation summaries of C10)
+            from rules import c10 as _c10
+            run.guard('link rules', _c10.link_rules, run, F, E)
+            run.guard('iterator rules', _c10.iterator_rules, run, F, E)
+            for r_ in ('C10.a', 'C10.b', 'C10.c', 'C10.d', 'C10.e', 'C10.f'):
+                run.relabel(r_, 'C08.j')
             # C08.c: the scan's activity predicate
             run.guard('check is active', c06.check_is_active, run, F)
             facts.drop(F)
@@ -378,6 +390,7 @@ def run(run):
     run.rule_counts = {k: v for k, v in run.rule_counts.items() if v[0] > 0}
     run.guard('report', static_units.report, run, 'C08.d', 'taskstatus')
     run.floor('C08.a', 10)
+    run.floor('C08.j', 20)
     run.floor('C08.b', 10)
     run.floor('C08.c', 20)
     run.floor('C08.d', 40)
